@@ -78,7 +78,7 @@ def cases(tier, seed):
                avq=pick([None, "quantized_bits(8,0,1)", "quantized_bits(4,0,1)", "quantized_po2(4)"]),
                xin=(ri(1, 2), ri(4, 8), ri(4, 8), ri(1, 3)))
     elif kind == "gavgpool":
-      c.update(avq=pick([None, "quantized_bits(8,0,1)", "quantized_po2(4)"]), xin=(ri(1, 2), ri(2, 6), ri(2, 6), ri(1, 3)),
+      c.update(avq=pick([None, "quantized_bits(8,0,1)", "quantized_po2(4)"]), xin=(ri(1, 2), ri(1, 6), ri(1, 6), ri(1, 3)),      # incl. 1 x 1 feature maps
                df=pick(["channels_last", "channels_last", "channels_first", None]))      # set on the layer, global default untouched
     elif kind == "scaleshift":
       c.update(xin=(ri(1, 2), ri(2, 6), ri(1, 3)))
